@@ -73,6 +73,7 @@ def make_spacing(tname, side, klen, facet, twin=False, lf=None):
             f = docenv.PARSER.parse(text, M.File)
             if lf is not None:      # the store is re-partitioned into a symbolically chosen legal block layout
                 docenv.reblock(f.token_store, lf, bp, bs)
+            docenv.warm(f)          # every attribute and view was read once before the accessor is used
             ms = spacing_models(f)
             path, m = ms[mi]
             new = ''.join(UNITS[u] for u in us)
